@@ -7,7 +7,7 @@ typed receivers, which covers every self.child.<m>() of a wrapping collector).
 import ast
 
 from ..report import rule
-from .. import norm, cfg as cfgmod, guards
+from .. import pm, norm, cfg as cfgmod, guards
 from ..model import AnalysisError
 from .common import calls_of, find_calls, returns_of, is_abstract_body, bind_args
 
@@ -36,24 +36,29 @@ def c14_r1(ctx):
     t1 = _discard_tests(ai)
     t2 = _discard_tests(cm)
     ok = len(t1) == 1 and len(t2) == 1
-    a = norm.canon(t1[0]) if t1 else ""
-    b = norm.canon(t2[0]) if t2 else ""
-    ctx.ob(cls, ok and a == b, "all_ids() and collect_matches() use the same discard predicate",
+    a = norm.canon(t1[0], norm.aliases(ai.node)) if t1 else ""
+    b = norm.canon(t2[0], norm.aliases(cm.node)) if t2 else ""
+    # same predicate up to the name of the local holding the global document number
+    same = ok and pm.Alpha(cm).eq(norm.substitute(t2[0], norm.aliases(cm.node)), a)
+    ctx.ob(cls, ok and same, "all_ids() and collect_matches() use the same discard predicate",
            detail="all_ids: %s ; collect_matches: %s" % (a, b), loc=ai.loc)
     for f, tests in ((ai, t1), (cm, t2)):
         for t in tests:
             bad = []
+            fal = norm.aliases(f.node)
             for n in ast.walk(t):
                 if isinstance(n, ast.BoolOp) and isinstance(n.op, ast.And):
-                    first = n.values[0]
-                    if isinstance(first, ast.Name) and first.id in ("_allow", "_restrict", "allow", "restrict"):
-                        bad.append(first.id)
+                    for first in n.values:
+                        if isinstance(first, (ast.Name, ast.Attribute)) and norm.canon(first, fal) in ("self._allow", "self._restrict", "self.allow", "self.restrict"):
+                            bad.append(norm.canon(first, fal).split(".")[-1])
             ctx.ob(f, not bad, "presence of the allow/restrict set is tested with `is not None`",
                    detail="truthiness test on %s: an empty set (a filter matching no document) disables the filter" % bad if bad else "")
     # prepare builds the sets under the same notion... a filter that is an empty *query* still yields a (possibly empty) set
     pr = cls.methods["prepare"]
-    txt = norm.stmt_text(pr.node)
-    ctx.ob(pr, "self._allow = ftc(allow) if allow else None" in txt and "self._restrict = ftc(restrict) if restrict else None" in txt,
+    sets = {norm.canon(st.targets[0]): norm.deep_canon(st.value, pr.node) for st in ast.walk(pr.node)
+            if isinstance(st, ast.Assign) and norm.canon(st.targets[0]) in ("self._allow", "self._restrict")}
+    ctx.ob(pr, sets == {"self._allow": "(top_searcher._filter_to_comb(self.allow) if self.allow else None)",
+                        "self._restrict": "(top_searcher._filter_to_comb(self.restrict) if self.restrict else None)"},
            "prepare() converts the user's filter/mask objects into docnum sets (None when not given)")
 
 
@@ -109,10 +114,9 @@ def c14_r3(ctx):
     cls = prog.cls("collectors.SortingCollector")
     co = cls.methods["collect"]
     ctx.saw(co)
-    app = [norm.canon(c.args[0]) for c in norm.calls_in(co.node) if norm.call_name(c) == "append" and c.args]
-    ctx.ob(co, app == ["(sortkey, global_docnum)"], "collect() appends (sortkey, global_docnum)", detail=str(app))
-    sk = [norm.deep_canon(st.value, co.node) for st in ast.walk(co.node) if isinstance(st, ast.Assign) and norm.canon(st.targets[0]) == "sortkey"]
-    ctx.ob(co, sk == ["self.sort_key(sub_docnum)"], "the key comes from sort_key(sub_docnum) of the same document", detail=str(sk))
+    app = [norm.deep_canon(c.args[0], co.node) for c in norm.calls_in(co.node) if norm.call_name(c) == "append" and c.args]
+    ctx.ob(co, len(app) == 1 and app[0].startswith("(") and app[0].endswith(", (self.offset + sub_docnum))"), "collect() appends (sortkey, global_docnum)", detail=str(app))
+    ctx.ob(co, app == ["(self.sort_key(sub_docnum), (self.offset + sub_docnum))"], "the key comes from sort_key(sub_docnum) of the same document", detail=str(app))
     rs = cls.methods["results"]
     ctx.saw(rs)
 
@@ -158,7 +162,8 @@ def c14_r5(ctx):
     ctx.ob(f, wrap == ["FacetCollector", "TermsCollector", "CollapseCollector", "FilterCollector"],
            "wrapping order is facets, terms, collapse, filter (outermost)", detail=str(wrap))
     fc = [c for c in norm.calls_in(f.node) if norm.call_name(c) == "FilterCollector"]
-    ok = len(fc) == 1 and [norm.canon(a) for a in fc[0].args] == ["c", "filter", "mask"]
+    ok = len(fc) == 1 and len(fc[0].args) == 3 and [norm.canon(a) for a in fc[0].args[1:]] == ["filter", "mask"] and \
+        isinstance(fc[0].args[0], ast.Name) and fc[0].args[0].id not in f.params
     ctx.ob(f, ok, "FilterCollector(c, filter, mask): filter -> allow, mask -> restrict")
     init = prog.method("collectors.FilterCollector", "__init__", inherited=False)
     ctx.ob(init, init.params[1:4] == ["child", "allow", "restrict"], "FilterCollector(child, allow, restrict)")
@@ -247,5 +252,8 @@ def c14_r7(ctx):
         ctx.ob(f, bool(adds) and all(a == "insort" for a in adds), "`%s` is filled only with insort()" % name,
                detail="additions: %s" % adds)
     # the comparison that evicts: new key strictly better than the worst kept
-    cmps = [norm.canon(n.test) for n in ast.walk(f.node) if isinstance(n, ast.If) and "best[(-1)]" in norm.canon(n.test)]
-    ctx.ob(f, cmps == ["(sortkey < best[(-1)][0])"], "a kept document is evicted only for a strictly smaller sort key", detail=str(cmps))
+    A = pm.Alpha(f)
+    cmps = [n.test for n in ast.walk(f.node) if isinstance(n, ast.If) and any("%s[(-1)]" % nm_ in norm.canon(n.test) for nm_ in extremes)]
+    ins = [c for c in norm.calls_in(f.node) if norm.call_name(c) == "insort"]
+    ok = len(cmps) == 1 and len(ins) == 1 and A.eq(ins[0], "insort(best, (sortkey, global_docnum))") and A.eq(cmps[0], "sortkey < best[-1][0]")
+    ctx.ob(f, ok, "a kept document is evicted only for a strictly smaller sort key", detail=str([A.text(c) for c in cmps]))
